@@ -30,7 +30,11 @@ Theorem Gen_globals_disciplined : globals_ok var_prots allow_list gen_accesses =
 Proof. exact globals_disciplined. Qed.
 Print Assumptions Gen_globals_disciplined.
 
-Theorem Gen_globals_vars_covered : forallb (var_covered var_prots allow_list) gen_global_vars = true.
+(* Every package-level variable of the kustomize packages linked into krusty.Run that is mutable — written outside
+   initialisers, OR initialised once but of reference type with its value passed to calls / methods called on it
+   (a `var digest = sha256.New()` style object) — is covered by the discipline table or excused by type / by name with
+   a justification (Glob/GlobalsAllow.v); no by-name excuse is stale. A NEW shared object on the build path breaks this. *)
+Theorem Gen_globals_vars_covered : vars_ok var_prots allow_list gen_global_vars = true.
 Proof. exact globals_vars_covered. Qed.
 Print Assumptions Gen_globals_vars_covered.
 
